@@ -106,6 +106,10 @@ def render(e, kind):
         return app(V('f', fun(T, T)), render(e[1], kind))
     if op == 'ofnat':
         return app(C('of_nat', fun(NAT, T)), render(e[1], 'nat'))
+    if op == 'a-':      # opaque atom: truncated difference of two variables
+        return binop('minus', T, V(e[1], T), V(e[2], T))
+    if op == 'a^':      # opaque atom: power of a variable (nat.norm_full works with plus and times only)
+        return app(C('power', fun(T, NAT, T)), V(e[1], T), numeral(NAT, e[2]))
     raise ValueError('bad expression %r' % (e,))
 
 
@@ -243,6 +247,8 @@ def poly_of_e(e):
         return p_pow(poly_of_e(e[1]), e[2])
     if op == 'f':
         return p_atom('f:' + json.dumps(e[1]))
+    if op in ('a-', 'a^'):
+        return p_atom(json.dumps(e))
     raise NotPoly(op)
 
 
@@ -314,7 +320,7 @@ def poly_of_ref(t, kind):
             d = poly_of_ref(args[1], kind)
             if d and p_is_const(d):
                 return p_scale(poly_of_ref(args[0], kind), 1 / d[()])
-        if nm == 'power' and len(args) == 2:
+        if nm == 'power' and len(args) == 2 and kind != 'nat':
             T = h[2]
             if ref.is_fun(T) and ref.is_fun(T[2][1]) and r_type_name(T[2][1][2][0]) == 'nat':
                 k = r_nat_numeral(args[1])
@@ -476,6 +482,10 @@ def arith_exprs(kind, nvars=3, max_leaves=8, ground=False, ops=None, big=False, 
             lambda pq: ['q', Fraction(pq[0], pq[1]).numerator, Fraction(pq[0], pq[1]).denominator]))
     if kind in ('int', 'real'):
         leaves.append(st.sampled_from([-1, -1, -2, -3, -10]).map(lambda k: ['q', k, 1]))
+    if kind == 'nat' and not ground and ops is None and len(names) >= 2:
+        leaves.append(st.one_of(
+            st.tuples(st.just('a-'), st.sampled_from(names), st.sampled_from(names)).map(list),
+            st.tuples(st.just('a^'), st.sampled_from(names), st.sampled_from([2, 2, 3])).map(list)))
     if ops is None:
         ops = {'nat': ['+', '+', '*', '*', 'S'], 'int': ['+', '+', '-', '*', '*', 'neg', '^'],
                'real': ['+', '+', '-', '*', '*', 'neg', '^', '/c']}[kind]
@@ -625,9 +635,12 @@ def flat_rendering(draw, p, kind):
     for m, c in monos:
         factors = []
         for key, ex in m:
-            if not key.startswith('v:'):
+            if key.startswith('["a'):
+                v = json.loads(key)
+            elif not key.startswith('v:'):
                 return None
-            v = ['v', key[2:]]
+            else:
+                v = ['v', key[2:]]
             if ex >= 2 and kind != 'nat' and draw(st.booleans()):
                 factors.append(['^', v, ex])
             else:
